@@ -276,6 +276,11 @@ func (c *nxCluster) check() string {
 		} else if h.up && h.node.pendingReadIndexes.getTick() > op.deadline+3 {
 			c.fail("C12: %c request op%d at replica %d (deadline tick %d) has no result at tick %d", op.kind, op.id, h.id, op.deadline,
 				h.node.pendingReadIndexes.getTick())
+		} else if h.up && op.timeout > 0 && uint64(h.tickEvents-op.callTicks) > op.timeout+4 {
+			// the same bound on the harness' own count of the ticks the host was given
+			// (the node's logical clock could itself have stopped)
+			c.fail("C12: %c request op%d at replica %d (timeout %d ticks) has no result %d ticks after it was made", op.kind, op.id, h.id, op.timeout,
+				h.tickEvents-op.callTicks)
 		}
 	}
 	// C11: every committed user entry is delivered to the user SM exactly once, in order
@@ -387,6 +392,9 @@ func (c *nxCluster) Canon() []byte {
 				now := h.node.pendingReadIndexes.getTick()
 				if op.deadline > now && op.deadline-now < 8 {
 					b.U(op.deadline - now)
+				}
+				if el := uint64(h.tickEvents - op.callTicks); el <= op.timeout+5 && op.timeout < 100 {
+					b.U(el)
 				}
 			}
 		}
